@@ -746,6 +746,8 @@ def mv_tolerance(op: Any, x: Any, y: Any) -> float:
         sizes.append(np.dtype(op.band_values.dtype).itemsize)      # the kernel is transformed in its own precision
     if min(sizes) >= 8:
         return 1e-9 if inexact else 1e-12
+    if any(str(getattr(l, 'dtype', '')) == 'bfloat16' for l in jax.tree.leaves(x) + jax.tree.leaves(y)):
+        return 1e-1          # 8 significant bits, sums of several products
     if min(sizes) == 2:
         return 2e-2
     return 3e-4 if inexact else 3e-6
